@@ -530,14 +530,24 @@ def run(ctx):
     if cur:
         chunks.append(cur)
     workers = max(1, min(vlib.NCPU, 12))
-    stats = {}
-    oracle_fail, corr_fail = [], []
-    with ProcessPoolExecutor(max_workers=workers) as ex:
-        for st, of, cf in ex.map(process_chunk, [(bindir, exe, c) for c in chunks]):
-            for k, v in st.items():
-                stats[k] = stats.get(k, 0) + v
-            oracle_fail += of
-            corr_fail += cf
+    for attempt in range(3):
+        stats = {}
+        oracle_fail, corr_fail = [], []
+        try:
+            with ProcessPoolExecutor(max_workers=workers) as ex:
+                for st, of, cf in ex.map(process_chunk, [(bindir, exe, c) for c in chunks]):
+                    for k, v in st.items():
+                        stats[k] = stats.get(k, 0) + v
+                    oracle_fail += of
+                    corr_fail += cf
+            break
+        except FileNotFoundError:
+            # the observer binary vanished while we ran (a concurrent clean-up of .cache/harness by another job on a
+            # shared machine): rebuild it from the same tree and start over; anything else is a real failure
+            if attempt == 2:
+                raise
+            bindir = vlib.build_harness(False, bins=["linesdump"])
+            exe = vlib.build_model("lines")
 
     # side ties of the model: its UTF-8 encoder, and the Coq SPEC against the reference mapper
     side = corpus + [t for t, _ in texts[len(corpus):len(corpus) + 820]] + rnd[:40] + [[c] for c in
